@@ -22,6 +22,7 @@
  */
 
 #include "opnmidi_midiplay.hpp"
+#include "opnmidi_verif.h"
 #include "opnmidi_opn2.hpp"
 #include "opnmidi_private.hpp"
 #ifndef OPNMIDI_DISABLE_MIDI_SEQUENCER
@@ -492,6 +493,7 @@ bool OPNMIDIplay::realTime_NoteOn(uint8_t channel, uint8_t note, uint8_t velocit
         int32_t bs = -0x7FFFFFFFl;
 
         for(size_t a = 0; a < static_cast<size_t>(synth.m_numChannels); ++a)
+        VERIF_LOOP(midiplay_noteon_select)
         {
             if(ccount == 1 && static_cast<int32_t>(a) == adlchannel[0]) continue;
             // ^ Don't use the same channel for primary&secondary
